@@ -80,7 +80,14 @@ def build(c, h):
                 out[names[k]] = array([dec(v) for v in s]) if con["d"] >= 1 else dec(s[0])
             if pt["g"][k]:
                 out[Database.get_gradient_name(names[k])] = full((max(con["d"], 1), 1), float(pt["g"][k]))
-        p.database.store(array([float(i + 1)]), out)
+        x = array([float(i + 1)])
+        if i % 2 == 0:
+            p.database.store(x, out)
+        else:
+            # as a driver does: one store per evaluated function, merged by the database
+            p.database.store(x, {})
+            for key, val in out.items():
+                p.database.store(x, {key: val})
     return p, names
 
 
@@ -182,17 +189,42 @@ def replay(c, h):
         errors["feasible_points"] = _exc(ex)
         rec["fp"] = []
         rec["fpb"] = False
+    try:
+        from numpy import array
+
+        rec["vm"] = []
+        for i in range(n):
+            flag, measure = p.history.check_design_point_is_feasible(array([float(i + 1)]))
+            rec["vm"].append({"feas": bool(flag), "v": enc_measure(measure)})
+        rec["vmb"] = True
+    except Exception as ex:  # noqa: BLE001
+        errors["violation_measure"] = _exc(ex)
+        rec["vm"] = []
+        rec["vmb"] = False
     return rec, errors
+
+
+def enc_measure(m):
+    """The violation measure in units of (1/SCALE)^2.  norm(v)**2 of a 2-vector is not exact in IEEE
+    arithmetic (sqrt then square): an integer within 1e-9 is that integer."""
+    m = float(m)
+    if math.isnan(m):
+        return NAN
+    if math.isinf(m):
+        return INF if m > 0 else -INF
+    q = m * SCALE * SCALE
+    return int(round(q)) if abs(q - round(q)) < 1e-9 and abs(q) < 100000 else OTHER
 
 
 # ----------------------------------------------------------------------------- Pareto clause
 
-def replay_pareto(pts):
+def replay_pareto(pts, with_result=True):
     """pts: sequence of [o: <<a,b>> | <<>>, feas: bool].  Returns the report for OptPareto."""
     import numpy as np
     from numpy import array
 
     from gemseo.algos.design_space import DesignSpace
+    from gemseo.algos.multiobjective_optimization_result import MultiObjectiveOptimizationResult
     from gemseo.algos.optimization_problem import OptimizationProblem
     from gemseo.algos.pareto.pareto_front import ParetoFront
     from gemseo.algos.pareto.utils import compute_pareto_optimal_points
@@ -226,14 +258,30 @@ def replay_pareto(pts):
         if q["o"]:
             out["f"] = array([v / SCALE for v in q["o"]])
         p.database.store(array([float(i + 1)]), out)
+    p.preprocess_functions(is_function_input_normalized=False)
     rec["front"] = []
     rec["frontb"] = True
-    try:
-        pf = ParetoFront.from_optimization_problem(p)
+
+    def entries(pf):
         xo = np.atleast_2d(pf.x_optima)
         fo = np.atleast_2d(pf.f_optima)
-        rec["front"] = [{"idx": enc_idx(xo[j], n), "o": enc_vals(fo[j])} for j in range(len(xo))]
+        return [{"idx": enc_idx(xo[j], n), "o": enc_vals(fo[j])} for j in range(len(xo))]
+
+    try:
+        rec["front"] = entries(ParetoFront.from_optimization_problem(p))
     except Exception as ex:  # noqa: BLE001
         errors["pareto_front"] = _exc(ex)
         rec["frontb"] = False
+    # (3) the consumer: the multi-objective result of the same problem
+    rec["mo"] = {"built": True, "has": False, "front": [], "skipped": not with_result}
+    if not with_result:
+        return rec, errors
+    try:
+        res = MultiObjectiveOptimizationResult.from_optimization_problem(p)
+        if res.pareto_front is not None:
+            rec["mo"]["has"] = True
+            rec["mo"]["front"] = entries(res.pareto_front)
+    except Exception as ex:  # noqa: BLE001
+        errors["multiobjective_result"] = _exc(ex)
+        rec["mo"]["built"] = False
     return rec, errors
